@@ -84,7 +84,7 @@ def expectation(desc, modes):
         if not okd and not oke:
             return ("reject",)
         return ("valid", lambda fl, val: (okd and fl == ["dir", str(val)]) or (oke and fl == ["ext", str(val)]))
-    if "idx" not in ms:
+    if "idx" not in ms or f == "badidx":
         return ("reject",)
     if f == "extind":
         return ("valid", lambda fl, val: fl == ["idx", "extind", str(val)]) if 0 <= v <= 65535 else ("none",)
@@ -449,6 +449,8 @@ def cases_for(pid, tier, rng):
         for c in asmgen.label_cases(reps if q else reps + rest, rng):
             yield c
         for c in asmgen.special_cases(rng, full=not q):
+            yield c
+        for c in asmgen.bad_index_cases(["LDA", "LEAX", "STX", "JMP", "LDY", "CMPU"] if q else reps + rest, rng, full=not q):
             yield c
         if pid == "C12":
             n = 4000 if q else 60000
